@@ -370,8 +370,10 @@ class OscMessageDispatcher(AbstractWrappingDispatcher):
 
     def __call__(self, msg, time, addr, recv_port):
         if msg[0] in self.active:
-            for func in self.active[msg[0]]:
-                fn.value(func, msg, time, addr, recv_port)
+            for func in self.active[msg[0]][:]:
+                # May be removed by a previous responder (e.g. one shot).
+                if func in self.active.get(msg[0], ()):
+                    fn.value(func, msg, time, addr, recv_port)
 
     def register(self):
         _libsc3.main.add_osc_recv_func(self) # thisProcess.addOSCRecvFunc(this)
@@ -390,8 +392,10 @@ class OscMessagePatternDispatcher(OscMessageDispatcher):
         pattern = msg[0]
         for key, funcs in self.active.copy().items():
             if _match_osc_address_pattern(pattern, key):
-                for func in funcs:
-                    fn.value(func, msg, time, addr, recv_port)
+                for func in funcs[:]:
+                    # May be removed by a previous responder (e.g. one shot).
+                    if func in self.active.get(key, ()):
+                        fn.value(func, msg, time, addr, recv_port)
 
     def type_key(self):
         return 'OSC matched'
